@@ -488,12 +488,40 @@ def reorg_inv(F):
     if loop_body is None:
         raise CheckError("anchor changed: reorganise_generic has no for loop")
 
-    # enumerate every path through one iteration (handles nesting, else-if chains, `continue`, shared tails)
+    # Case analysis on the one fact the bookkeeping depends on: does the element sit inside the original import prefix
+    # (A: idx < orig_num_imported)?  For A = true and A = false separately, every path through one iteration is enumerated
+    # with the branches that test A decided (whether A is tested by an `if`, kept in a bool local, or matched in a tuple),
+    # and the counter updates on the path are compared with what the removals/insertions on it require.
+    def norm(t):
+        return t.replace(" ", "")
+
+    def is_atom_expr(e):
+        e = peel(e)
+        if e.get("k") == "Binary" and e.get("op") == "<":
+            t = norm(snippet(_repo(), fn["file"], e["sp"]))
+            return t.startswith("idx<orig_num_imported")
+        return False
+
+    atom_locals = set()
+    for st in walk(fn["body"]):
+        if st.get("k") == "Let" and st["pat"].get("k") == "Binding" and "init" in st and is_atom_expr(st["init"]):
+            atom_locals.add(st["pat"]["hid"])
+    pos_locals = set()
+    for st in walk(fn["body"]):
+        if st.get("k") == "Let" and st["pat"].get("k") == "Binding" and "init" in st and "idx-num_deleted" in norm(snippet(_repo(), fn["file"], st["init"]["sp"])):
+            pos_locals.add(st["pat"]["hid"])
+
     def classify(n):
         if n.get("k") == "MethodCall" and n["method"] in ("remove", "insert", "push") and (place_path(n["recv"]) or "") == "items":
             if n["method"] == "push":
                 return "push"
-            return "%s:%s" % (n["method"], snippet(_repo(), fn["file"], n["args"][0]["sp"]))
+            a0 = peel(n["args"][0])
+            while a0.get("k") == "Cast":
+                a0 = peel(a0["a"])
+            txt = norm(snippet(_repo(), fn["file"], n["args"][0]["sp"]))
+            if a0.get("k") == "Path" and a0.get("res", {}).get("hid") in pos_locals:
+                txt = "(idx-num_deleted)asu32"
+            return "%s:%s" % (n["method"], txt)
         if n.get("k") == "AssignOp" and peel(n["rhs"]).get("k") == "Lit" and lit_int(peel(n["rhs"])["lit"]) == 1:
             l = peel(n["lhs"])
             d = "+1" if n["op"].startswith("+") else "-1"
@@ -503,52 +531,89 @@ def reorg_inv(F):
                 return "del" + d
         return None
 
-    def branch_label(node):
-        desc = snippet(_repo(), fn["file"], node["cond"]["sp"])
-        return ("T:" + desc, "F:" + desc)
-
-    seen_paths = set()
-    for ev, st in paths(loop_body, classify, branch_label=branch_label):
-        if st not in ("fall", "cont"):
-            continue
-        seen_paths.add(ev)
-    r.count("branches", len(seen_paths))
     judged = 0
-    for ev in sorted(seen_paths):
-        conds = [e for e in ev if e.startswith(("T:", "F:"))]
-        ops = [e for e in ev if not e.startswith(("T:", "F:"))]
-        if not ops:
-            continue
-        judged += 1
-        removes = sum(1 for e in ops if e.startswith("remove:"))
-        inserts = sum(1 for e in ops if e.startswith("insert:"))
-        pushes = ops.count("push")
-        d_imp = ops.count("imp+1") - ops.count("imp-1")
-        d_del = ops.count("del+1") - ops.count("del-1")
-        bad_idx = [e for e in ops if e.startswith("remove:") and "idx-num_deleted" not in e] + [e for e in ops if e.startswith("insert:") and e != "insert:num_imported"]
-        in_prefix = any(c.startswith("T:idx<orig_num_imported") for c in conds)
-        decided = any(c[2:].startswith("idx<orig_num_imported") and "&&" not in c and "||" not in c and "==" not in c for c in conds)
-        ambiguous = (not decided) and any("orig_num_imported" in c for c in conds)
-        # a removing path on which the prefix test was never evaluated (e.g. a hoisted `if val.is_deleted() { remove; continue }`)
-        # serves elements on both sides of the import boundary just the same
-        label = " ∧ ".join(("" if c[0] == "T" else "¬") + c[2:] for c in conds)
-        want_del = removes - inserts
-        want_imp = (-1 if (in_prefix and removes > 0) else 0) + (1 if inserts > 0 else 0)
-        ok = d_del == want_del and d_imp == want_imp and not bad_idx
-        if (ambiguous or not decided) and removes > 0:
-            # the branch is taken both for elements inside and outside the import prefix (the prefix test is buried in a
-            # compound condition): a removal inside the prefix needs Δnum_imported = -1, outside it needs 0 — one update cannot serve both
-            ok = False
-            r.ob(False, {"path": label, "prefix_membership": "undetermined on this path"})
-            r.violate("%s | %s | prefix-agnostic removal" % (fn["path"], label), F.loc(fn),
-                      "path [%s] removes an element without separating elements inside the import prefix (which must decrement num_imported) from those outside it (which must not): Δnum_imported=%d is wrong for one of the two" % (label, d_imp))
-            continue
-        r.ob(ok, {"path": label, "remove": removes, "insert": inserts, "push": pushes, "Δnum_imported": d_imp, "Δnum_deleted": d_del})
-        if not ok:
-            r.violate("%s | %s" % (fn["path"], label), F.loc(fn),
-                      "path [%s] does remove×%d insert×%d push×%d with Δnum_imported=%d (needs %d) and Δnum_deleted=%d (needs %d)%s: the position bookkeeping of reorganise_generic is broken for every later element" % (
-                          label, removes, inserts, pushes, d_imp, want_imp, d_del, want_del, ("; bad index " + str(bad_idx)) if bad_idx else ""))
+    n_paths = 0
+    for A in (True, False):
+        def val(c, A=A):
+            c = peel(c)
+            if is_atom_expr(c):
+                return A
+            if c.get("k") == "Path" and c.get("res", {}).get("hid") in atom_locals:
+                return A
+            if c.get("k") == "Unary" and c.get("op") == "!":
+                v = val(c["a"])
+                return None if v is None else (not v)
+            if c.get("k") == "Binary" and c.get("op") in ("&&", "||"):
+                x, y = val(c["a"]), val(c["b"])
+                if c["op"] == "&&":
+                    if x is False or y is False:
+                        return False
+                    return True if (x is True and y is True) else None
+                if x is True or y is True:
+                    return True
+                return False if (x is False and y is False) else None
+            if c.get("k") == "DropTemps":
+                return val(c.get("e") or c.get("a") or {})
+            return None
+
+        def decide_if(n):
+            return val(n["cond"])
+
+        def select_arms(m):
+            sc = peel(m.get("scrut") or {})
+            if sc.get("k") != "Tup":
+                return None
+            vals = [val(e) for e in sc["elems"]]
+            if all(v is None for v in vals):
+                return None
+            out = []
+            for i, arm in enumerate(m["arms"]):
+                p_ = arm["pat"]
+                ok_ = True
+                if p_.get("k") == "Tuple":
+                    for v, sub in zip(vals, p_["pats"]):
+                        if v is None:
+                            continue
+                        lit = None
+                        if sub.get("k") in ("Lit", "Expr"):
+                            t_ = str(sub)
+                            lit = True if "Bool(true)" in t_ else (False if "Bool(false)" in t_ else None)
+                        if lit is not None and lit != v:
+                            ok_ = False
+                if ok_:
+                    out.append(i)
+            return out
+
+        seen_paths = set()
+        for ev, st in paths(loop_body, classify, decide_if=decide_if, select_arms=select_arms):
+            if st not in ("fall", "cont"):
+                continue
+            seen_paths.add(ev)
+        n_paths += len(seen_paths)
+        for ev in sorted(seen_paths):
+            ops = list(ev)
+            if not ops:
+                continue
+            judged += 1
+            removes = sum(1 for e in ops if e.startswith("remove:"))
+            inserts = sum(1 for e in ops if e.startswith("insert:"))
+            pushes = ops.count("push")
+            d_imp = ops.count("imp+1") - ops.count("imp-1")
+            d_del = ops.count("del+1") - ops.count("del-1")
+            bad_idx = [e for e in ops if e.startswith("remove:") and "idx-num_deleted" not in e] + [e for e in ops if e.startswith("insert:") and e != "insert:num_imported"]
+            want_del = removes - inserts
+            want_imp = (-1 if (A and removes > 0) else 0) + (1 if inserts > 0 else 0)
+            ok = d_del == want_del and d_imp == want_imp and not bad_idx
+            label = "%s import prefix: remove×%d insert×%d push×%d" % ("inside" if A else "outside", removes, inserts, pushes)
+            r.ob(ok, {"case": label, "Δnum_imported": d_imp, "Δnum_deleted": d_del})
+            if not ok:
+                r.violate("%s | %s | Δimp=%d Δdel=%d" % (fn["path"], label, d_imp, d_del), F.loc(fn),
+                          "for an element %s the original import prefix a path does remove×%d insert×%d push×%d with Δnum_imported=%d (needs %d) and Δnum_deleted=%d (needs %d)%s: the position bookkeeping of reorganise_generic is broken for every later element" % (
+                              "inside" if A else "outside", removes, inserts, pushes, d_imp, want_imp, d_del, want_del, ("; bad index " + str(bad_idx)) if bad_idx else ""))
+    r.count("branches", n_paths)
     r.count("mutating_paths", judged)
+    if judged < 4:
+        raise CheckError("reorganise_generic: fewer than 4 mutating paths found (%d): the algorithm changed shape beyond what this rule understands" % judged)
     return r
 
 
